@@ -18,6 +18,9 @@ CHECKS = {
  "C09": ("exploration", "bounded exhaustive history enumeration on real dkv.DB instances with garbage collection as an explicit enumerated action (runtime.GC + cleanup barrier), file-existence oracle over retained checkpoint documents plus reads of the live level set",
          "single database: every history up to depth 5-6 over write burst / Checkpoint / retention update / reopen in the same process (old object dropped or kept, same or new directory) / forced GC; neighbours: rescale 1->N with the real OperatorPartition policy, simulated operator processes (own file names), every combination of neighbour answers (truthful / error / hang) and every order of bursts, job checkpoints, retention notifications and GC up to depth 4-6",
          "GC completeness depends on the collector finding the garbage (deletions that are reported are real); simulated processes share one Go heap; MemoryFilesystem", "DESIGN.md §5 C09"),
+ "C10": ("exploration", "bounded exhaustive operation-sequence enumeration with state-key pruning on the real TimerRegistry/TimerStore over a real dkv.DB vs a set of pending timers",
+         "every sequence up to depth 5-7 over SetTimer / AdvanceWatermark / checkpoint+restore with 1-2 upstreams and per-key-group cache capacities of 0,1,2,3,unlimited timers; each advance must deliver exactly the pending timers at or below the minimum upstream watermark, once, in order; final drain",
+         "three subject keys in two key groups, four timestamps; non-decreasing upstream watermarks; large memtable (the database is C07/C08's subject)", "DESIGN.md §5 C10"),
  "C17": ("exploration", "bounded exhaustive input/history enumeration on the real SST and WAL code vs reference lists",
          "every run of 0..50 entries from a 56-key universe (binary, empty, prefix-related keys; tombstone masks exhaustive up to 8 entries), whole and split at every target size, every lookup key / prefix, descriptor JSON round trip; every WAL history over put/delete/cut/truncate/rotate+save up to depth 6-7 with every legal start marker",
          "bounded sizes and alphabet; MemoryFilesystem stands for all file systems", "DESIGN.md §5 C17"),
